@@ -115,6 +115,7 @@ type VecWideSpec struct {
 	Opt    string `json:"opt"`
 	Seed   uint32 `json:"seed"`
 	Every  int    `json:"every"` // docs with i%Every==Every-1 carry no vector (0 = all carry one)
+	Multi  int    `json:"multi,omitempty"` // docs with i%Multi==1 carry a second vector in the field (0 = none)
 }
 
 // SynWideSpec is a parametric description of many synonym documents that all
@@ -160,20 +161,26 @@ func (w *VecWideSpec) expand() []DocSpec {
 			out = append(out, d)
 			continue
 		}
-		v := make([]float32, w.Dim)
-		if w.Metric == "cosine" {
-			a := int(next()) % w.Dim
-			if next()%2 == 0 {
-				v[a] = 1
-			} else {
-				v[a] = -1
-			}
-		} else {
-			for j := range v {
-				v[j] = float32(int(next()%41) - 20)
-			}
+		nv := 1
+		if w.Multi > 0 && i%w.Multi == 1 {
+			nv = 2
 		}
-		d.Fields = []FieldSpec{{Name: w.Field, Kind: KindVec, Vec: &VecSpec{Dim: w.Dim, Data: v, Metric: w.Metric, Opt: w.Opt}}}
+		for ; nv > 0; nv-- {
+			v := make([]float32, w.Dim)
+			if w.Metric == "cosine" {
+				a := int(next()) % w.Dim
+				if next()%2 == 0 {
+					v[a] = 1
+				} else {
+					v[a] = -1
+				}
+			} else {
+				for j := range v {
+					v[j] = float32(int(next()%41) - 20)
+				}
+			}
+			d.Fields = append(d.Fields, FieldSpec{Name: w.Field, Kind: KindVec, Vec: &VecSpec{Dim: w.Dim, Data: v, Metric: w.Metric, Opt: w.Opt}})
+		}
 		out = append(out, d)
 	}
 	return out
